@@ -136,6 +136,21 @@ Definition run_crash : P (list Z) :=
   let '(live, t) := crash_at proc (fs_of old tmp) n cut in
   pret (Z.of_nat (length proc) :: oobytes live ++ oobytes t).
 
+(* entry 6: the steps of the modelled write procedure (kind per step:
+   1 create live, 2 create tmp, 3 append live, 4 append tmp, 5 flush,
+   6 sync live, 7 sync tmp, 8 rename tmp->live, 9 other rename) *)
+Definition ostep (st : step) : Z :=
+  match st with
+  | Create Live => 1 | Create Tmp => 2
+  | Append Live _ => 3 | Append Tmp _ => 4
+  | Flush => 5
+  | Sync Live => 6 | Sync Tmp => 7
+  | Rename Tmp Live => 8 | Rename _ _ => 9
+  end.
+Definition run_proc : P (list Z) :=
+  kind <~ pZ ;; new <~ plist prow_t ;;
+  pret (map ostep (if kind =? 0 then inplace_proc new else rename_proc new)).
+
 (* entry 5: rust_decimal division *)
 Definition run_div : P (list Z) :=
   a <~ pQ ;; b <~ pQ ;;
@@ -151,6 +166,7 @@ Definition dispatch (l : list Z) : list Z :=
                | 3 => run_parsecsv
                | 4 => run_crash
                | 5 => run_div
+               | 6 => run_proc
                | _ => fun _ => None
                end in
       match p r with
